@@ -62,6 +62,8 @@ def run(ctx):
     # registers: meta.json still names the sources with the newest delete file (finding F55, repaired)
     vlib.mc_check(ctx, "KillGcProto", "KillGcProto.cfg", timeout=120, workers=2)
     vlib.mc_check(ctx, "KillGcProto", "KillGcProto_negF55.cfg", expect_violation="DiskReadable", timeout=120, workers=2)
+    if not ctx.quick:
+        vlib.mc_check(ctx, "KillGcProto", "KillGcProto_deep.cfg", timeout=300, workers=2)   # nine commits: 1,617 states, depth 23
     vlib.mc_check(ctx, "StorageProto", "StorageProto_negF45.cfg", expect_violation="NoSpuriousFailure", timeout=120, workers=2)
     # a failed meta.json replacement at the storage level: active metas replaced before the durable write (seeded C11-s9)
     vlib.mc_check(ctx, "StorageProto", "StorageProto_negS11.cfg", expect_violation="NeverDeletesNeeded", timeout=300, workers=4)
